@@ -24,9 +24,33 @@ def _inner_function(factory):
         raise AnalysisError("conversion factory %s: nested function must take one argument" % factory.qual)
     rets = [n for n in ast.walk(f) if isinstance(n, ast.Return)]
     body = [n for n in f.body if not (isinstance(n, ast.Expr) and isinstance(n.value, ast.Constant))]
-    if len(rets) != 1 or len(body) != 1 or body[0] is not rets[0] or rets[0].value is None:
-        raise AnalysisError("conversion factory %s: nested function is not a single return expression" % factory.qual)
-    return f, rets[0].value
+    if len(rets) != 1 or not body or body[-1] is not rets[0] or rets[0].value is None:
+        raise AnalysisError("conversion factory %s: nested function is not straight-line code ending in one return" % factory.qual)
+    # straight-line locals (`numerator = a + b * x`) are substituted into the returned expression
+    import copy
+
+    env = {}
+
+    class Sub(ast.NodeTransformer):
+        def visit_Name(self, node):
+            if isinstance(node.ctx, ast.Load) and node.id in env:
+                return copy.deepcopy(env[node.id])
+            return node
+
+    for st in body[:-1]:
+        if isinstance(st, ast.AnnAssign) and st.value is not None and isinstance(st.target, ast.Name):
+            tgt, val = st.target, st.value
+        elif isinstance(st, ast.Assign) and len(st.targets) == 1 and isinstance(st.targets[0], ast.Name):
+            tgt, val = st.targets[0], st.value
+        else:
+            raise AnalysisError("conversion factory %s: nested function is not straight-line code ending in one return (%s)" % (factory.qual, type(st).__name__))
+        if tgt.id == a.args[0].arg:
+            raise AnalysisError("conversion factory %s: nested function rebinds its argument" % factory.qual)
+        env[tgt.id] = Sub().visit(copy.deepcopy(val))
+    value = Sub().visit(copy.deepcopy(rets[0].value)) if env else rets[0].value
+    if env:
+        ast.fix_missing_locations(value)
+    return f, value
 
 
 class ConvModel:
